@@ -5,7 +5,7 @@ Open Scope Z_scope.
 Definition has_alive (id : N) (g : file) : Prop := exists e, In e (alive_entries g) /\ e_id e = id.
 
 Definition kills (id b : N) (a : act) : Prop :=
-  a = RmIndex b \/ a = MvToTrash b \/ a = Tomb b id true.
+  a = RmIndex b \/ a = MvToTrash b \/ a = Tomb b id true \/ exists totr, a = TombOrRm b id totr.
 
 (** actions that cannot make repository [id] alive in the index, given that every file (index or
     trash) in which it is alive has its base name in TB *)
@@ -57,7 +57,7 @@ Lemma index_origin : forall now id TB a x g',
   exists g, In g (d_index x) /\ f_base g = f_base g' /\ has_alive id g.
 Proof.
   intros now id TB a x g' Hnr HI Hin Ha.
-  destruct a as [b|b|b id' flag|b|b|b|b|]; simpl in *.
+  destruct a as [b|b|b id' flag|b id' totr|b|b|b|b|]; simpl in *.
   - apply in_rm in Hin. destruct Hin as [Hin _]. exists g'. auto.
   - exists g'. auto.
   - unfold on_file in Hin. apply in_map_iff in Hin. destruct Hin as [g [E Hg]].
@@ -65,6 +65,12 @@ Proof.
     + subst g'. exists g. repeat split; auto. eapply has_alive_set_flag; eauto.
       intros ->. exact Hnr.
     + subst g'. exists g. auto.
+  - destruct (serves_others b id' (d_index x)); simpl in Hin.
+    + unfold on_file in Hin. apply in_map_iff in Hin. destruct Hin as [g [E Hg]].
+      destruct (N.eqb (f_base g) b).
+      * subst g'. exists g. repeat split; auto. eapply has_alive_set_flag; eauto. discriminate.
+      * subst g'. exists g. auto.
+    + apply in_rm in Hin. destruct Hin as [Hin _]. exists g'. auto.
   - unfold on_file in Hin. apply in_map_iff in Hin. destruct Hin as [g [E Hg]].
     destruct (N.eqb (f_base g) b).
     + subst g'. exists g. repeat split; auto.
@@ -87,7 +93,7 @@ Proof.
   intros now id TB a x Hnr HI g' Hin Ha.
   assert (Old : forall g, In g (d_index x ++ d_trash x) -> f_base g = f_base g' -> has_alive id g -> In (f_base g') TB).
   { intros g Hg E Hga. rewrite <- E. apply HI; assumption. }
-  destruct a as [b|b|b id' flag|b|b|b|b|]; simpl in *.
+  destruct a as [b|b|b id' flag|b id' totr|b|b|b|b|]; simpl in *.
   - apply in_app_or in Hin. destruct Hin as [Hin|Hin].
     + apply in_rm in Hin. destruct Hin as [Hin _]. apply (Old g'); auto. apply in_or_app; auto.
     + apply (Old g'); auto. apply in_or_app; auto.
@@ -100,6 +106,18 @@ Proof.
       * apply (Old g); [apply in_or_app; auto|reflexivity|]. eapply has_alive_set_flag; eauto. intros ->. exact Hnr.
       * apply (Old g); auto. apply in_or_app; auto.
     + apply (Old g'); auto. apply in_or_app; auto.
+  - destruct (serves_others b id' (d_index x)); simpl in Hin.
+    + apply in_app_or in Hin. destruct Hin as [Hin|Hin].
+      * unfold on_file in Hin. apply in_map_iff in Hin. destruct Hin as [g [E Hg]].
+        destruct (N.eqb (f_base g) b); subst g'.
+        -- apply (Old g); [apply in_or_app; auto|reflexivity|]. eapply has_alive_set_flag; eauto. discriminate.
+        -- apply (Old g); auto. apply in_or_app; auto.
+      * apply (Old g'); auto. apply in_or_app; auto.
+    + apply in_app_or in Hin. destruct Hin as [Hin|Hin].
+      * apply in_rm in Hin. destruct Hin as [Hin _]. apply (Old g'); auto. apply in_or_app; auto.
+      * destruct totr.
+        -- apply in_rm in Hin. destruct Hin as [Hin _]. apply (Old g'); auto. apply in_or_app; auto.
+        -- apply (Old g'); auto. apply in_or_app; auto.
   - apply in_app_or in Hin. destruct Hin as [Hin|Hin].
     + unfold on_file in Hin. apply in_map_iff in Hin. destruct Hin as [g [E Hg]].
       destruct (N.eqb (f_base g) b); subst g'.
@@ -135,19 +153,25 @@ Qed.
 Lemma kill_effective : forall now id b a x g',
   kills id b a -> In g' (d_index (apply now x a)) -> f_base g' = b -> ~ has_alive id g'.
 Proof.
-  intros now id b a x g' Hk Hin Hb Ha. destruct Hk as [Hk|[Hk|Hk]]; subst a; simpl in Hin.
-  - apply in_rm in Hin. destruct Hin as [_ Hne]. contradiction.
-  - destruct (find_file b (d_index x)) as [h|] eqn:F; simpl in Hin.
-    + apply in_rm in Hin. destruct Hin as [_ Hne]. contradiction.
-    + eapply find_file_none in F; eauto.
-  - unfold on_file in Hin. apply in_map_iff in Hin. destruct Hin as [g [E Hg]].
+  intros now id b a x g' Hk Hin Hb Ha.
+  assert (Tombed : forall fs, In g' (on_file b (set_flag id true) fs) -> False).
+  { intros fs Hin'. unfold on_file in Hin'. apply in_map_iff in Hin'. destruct Hin' as [g [E Hg]].
     destruct (N.eqb (f_base g) b) eqn:Eb.
     + subst g'. destruct Ha as [e [He Hid]]. unfold alive_entries, set_flag in He. simpl in He.
       apply filter_In in He. destruct He as [He Ht]. apply in_map_iff in He. destruct He as [e0 [E He0]].
       destruct (N.eqb (e_id e0) id) eqn:E1.
       * subst e. discriminate.
       * subst e0. apply N.eqb_neq in E1. contradiction.
-    + subst g'. apply N.eqb_neq in Eb. contradiction.
+    + subst g'. apply N.eqb_neq in Eb. contradiction. }
+  destruct Hk as [Hk|[Hk|[Hk|[totr Hk]]]]; subst a; simpl in Hin.
+  - apply in_rm in Hin. destruct Hin as [_ Hne]. contradiction.
+  - destruct (find_file b (d_index x)) as [h|] eqn:F; simpl in Hin.
+    + apply in_rm in Hin. destruct Hin as [_ Hne]. contradiction.
+    + eapply find_file_none in F; eauto.
+  - eapply Tombed; eauto.
+  - destruct (serves_others b id (d_index x)); simpl in Hin.
+    + eapply Tombed; eauto.
+    + apply in_rm in Hin. destruct Hin as [_ Hne]. contradiction.
 Qed.
 
 Lemma kill_all : forall now id TB acts x,
@@ -204,7 +228,8 @@ Section Unassigned.
         apply in_map_iff in Ha. destruct Ha as [s [<- _]]. exact I.
     - apply Forall_forall. intros a Ha. unfold plan3 in Ha. apply in_flat_map in Ha. destruct Ha as [i [_ Ha]].
       destruct (consistent (group (ix d) i)); [contradiction|].
-      apply in_app_or in Ha. destruct Ha as [Ha|Ha]; apply in_map_iff in Ha; destruct Ha as [s [<- _]]; exact I.
+      apply in_app_or in Ha. destruct Ha as [Ha|Ha]; apply in_map_iff in Ha; destruct Ha as [s [<- _]]; [exact I|].
+      destruct (s_compound s); exact I.
     - apply Forall_forall. intros a Ha. unfold plan4 in Ha. apply in_flat_map in Ha. destruct Ha as [i [Hi Ha]].
       assert (Hne : i <> id) by (intros ->; contradiction).
       destruct (memN i (trash_keys d now)) eqn:TK.
@@ -231,8 +256,9 @@ Section Unassigned.
       + apply in_app_or in Ha. destruct Ha as [Ha|Ha].
         * apply in_map_iff in Ha. destruct Ha as [s [<- _]]. exact I.
         * apply in_flat_map in Ha. destruct Ha as [s [_ Ha]].
-          unfold move_to in Ha. simpl in Ha. destruct Ha as [<-|Ha]; [exact I|].
-          destruct (s_compound s); simpl in Ha; destruct Ha as [<-|[]]; exact I.
+          unfold move_to in Ha. destruct (s_compound s); simpl in Ha.
+          -- destruct Ha as [<-|[]]. exact I.
+          -- destruct Ha as [<-|[<-|[]]]; exact I.
     - constructor; [exact I|constructor].
   Qed.
 
@@ -253,30 +279,31 @@ Section Unassigned.
         - apply negb_true_iff. destruct (memN id repos) eqn:M; [|reflexivity].
           apply memN_In in M. contradiction. }
       destruct (sm && s_compound s) eqn:B.
-      + exists (Tomb (f_base g) id true). split; [|right; right; reflexivity].
+      + exists (Tomb (f_base g) id true). split; [|right; right; left; reflexivity].
         unfold plan. apply in_or_app. right. apply in_or_app. right. apply in_or_app. right. apply in_or_app. left.
         unfold plan5. apply in_flat_map. exists id. split; [exact K4|].
         apply in_or_app. right. apply in_or_app. left.
         apply in_map_iff. exists s. split; [reflexivity|]. apply filter_In. split; [exact Hs|exact B].
-      + exists (if s_compound s then RmIndex (f_base g) else MvToTrash (f_base g)). split.
+      + exists (if s_compound s then TombOrRm (f_base g) id true else MvToTrash (f_base g)). split.
         * unfold plan. apply in_or_app. right. apply in_or_app. right. apply in_or_app. right. apply in_or_app. left.
           unfold plan5. apply in_flat_map. exists id. split; [exact K4|].
           apply in_or_app. right. apply in_or_app. right.
           apply in_flat_map. exists s. split; [apply filter_In; split; [exact Hs|rewrite B; reflexivity]|].
-          unfold move_to. right. destruct (s_compound s); left; reflexivity.
-        * destruct (s_compound s); [left; reflexivity|right; left; reflexivity].
+          unfold move_to. destruct (s_compound s); [left; reflexivity|right; left; reflexivity].
+        * destruct (s_compound s); [right; right; right; exists true; reflexivity|right; left; reflexivity].
     - (* purged as a renamed repository *)
       destruct (sm && s_compound s) eqn:B.
-      + exists (Tomb (f_base g) id true). split; [|right; right; reflexivity].
+      + exists (Tomb (f_base g) id true). split; [|right; right; left; reflexivity].
         unfold plan. apply in_or_app. right. apply in_or_app. left.
         unfold plan3. apply in_flat_map. exists id. split; [exact Hix|]. rewrite C.
         apply in_or_app. left. apply in_map_iff. exists s. split; [reflexivity|].
         apply filter_In. split; [exact Hs|exact B].
-      + exists (RmIndex (f_base g)). split; [|left; reflexivity].
-        unfold plan. apply in_or_app. right. apply in_or_app. left.
-        unfold plan3. apply in_flat_map. exists id. split; [exact Hix|]. rewrite C.
-        apply in_or_app. right. apply in_map_iff. exists s. split; [reflexivity|].
-        apply filter_In. split; [exact Hs|rewrite B; reflexivity].
+      + exists (if s_compound s then TombOrRm (f_base g) id false else RmIndex (f_base g)). split.
+        * unfold plan. apply in_or_app. right. apply in_or_app. left.
+          unfold plan3. apply in_flat_map. exists id. split; [exact Hix|]. rewrite C.
+          apply in_or_app. right. apply in_map_iff. exists s. split; [reflexivity|].
+          apply filter_In. split; [exact Hs|rewrite B; reflexivity].
+        * destruct (s_compound s); [right; right; right; exists false; reflexivity|left; reflexivity].
   Qed.
 
   Theorem unassigned_not_alive_after :
